@@ -1134,3 +1134,178 @@ Proof.
   destruct Hwf as [Ho Hr]. destruct Hsz as [Hs Hsr]. destruct (c07_step w o P HC Ho HP FP) as [HC' Hb].
   apply IH; try done. lia.
 Qed.
+
+(** * [ns_ok] holds in every reachable world of a well-formed history (with or without pool requests) *)
+Definition wf_op2 (w : world) (o : pop2) : Prop := match o with P1 o => wf_op w o | PApiPool _ _ _ _ _ => True end.
+Fixpoint wf_hist2 (w : world) (ops : list pop2) : Prop :=
+  match ops with [] => True | o :: r => wf_op2 w o ∧ wf_hist2 (pstep2 w o).1 r end.
+
+Lemma cinv_step w o : CInv w → wf_op2 w o → CInv (pstep2 w o).1.
+Proof.
+  intros [HW Hns] Hwf. destruct o as [o|name size pre picks nfail].
+  - split; [by apply winv_step|]. cbn [pstep2 fst]. destruct (wi_ipam w HW) as [HIi HIr].
+    assert (∀ w', i_pools (w_ipam w') = i_pools (w_ipam w) → ns_ok (w_ipam w')) as Hp by (intros w' E; unfold ns_ok; by rewrite E).
+    destruct o as [e|key nodes orc fl|ns name uid node orc fl|n orc oun fl|ip orc ocl fl|k ip ocl fl|key fl|io|conf].
+    + apply Hp. cbn [pstep fst]. by rewrite env_step_ipam.
+    + cbn [pstep]. destruct (w_pods w !! key) as [p|] eqn:Ep; [|done].
+      destruct (filter_section w p nodes orc fl) as [w' r] eqn:Ef.
+      assert (ns_ok (w_ipam w')) as Hgoal; [|by destruct r].
+      apply filter_section_frame in Ef as [->|(sn & a & ch & fail & i' & _ & -> & [Hal|[ox Hal]])]; [done|..];
+        cbn [set_ipam w_ipam]; unfold ns_ok.
+      * apply alloc_with_key_spec in Hal as [(_ & x & e & _ & _ & _ & _ & _ & ->)|[? _]]; done.
+      * apply alloc_in_subnet_spec in Hal as [(_ & x & _ & _ & _ & _ & _ & ->)|[? _]]; done.
+    + cbn [pstep]. pose proof (bind_section_pools w ns name uid node orc fl HIi) as Hb.
+      destruct (bind_section true true w ns name uid node orc fl) as [w' r]. cbn [fst] in Hb. apply Hp in Hb. by destruct r.
+    + apply Hp. by apply (release_steps_wle w _ (L "p")).
+    + apply Hp. by apply (release_steps_wle w _ (L "p")).
+    + apply Hp. by apply (release_steps_wle w _ (L "p")).
+    + cbn [pstep]. destruct (w_lister w !! key) as [l|]; [|done]. cbn [fst]. apply Hp.
+      unfold sync_pod_ip. destruct (pd_phase l =? 1); [|done]. apply sync_ips_pools.
+    + destruct io as [conf lf df| | | | | | | | | | | |]; cbn [wf_op2 wf_op] in Hwf; try done. destruct Hwf as [-> _].
+      cbn [pstep fst set_ipam w_ipam].
+      by destruct (config_step_c07 w (OConfigure conf lf []) [] (wi_ipam w HW) Hns I) as [_ Hns'].
+    + cbn [pstep fst set_ipam set_lister set_queue w_ipam].
+      by destruct (config_step_c07 w (ORestart conf) [] (wi_ipam w HW) Hns I) as [_ Hns'].
+  - cbn [pstep2]. destruct pre; [|done]. destruct (prealloc_section w name size picks nfail) as [w' r] eqn:Ep. cbn [fst].
+    destruct (prealloc_section_spec _ _ _ _ _ _ _ HW Ep) as (HW' & Hp & _). split; [done|]. unfold ns_ok. by rewrite Hp.
+Qed.
+
+Lemma cinv_run2 ops : ∀ w, CInv w → wf_hist2 w ops → CInv (prun2 w ops).
+Proof.
+  unfold prun2. induction ops as [|o ops IH]; intros w HC Hwf; cbn [fold_left]; [done|].
+  destruct Hwf as [Ho Hr]. apply IH; [by apply cinv_step|done].
+Qed.
+
+Lemma cinv_run ops : ∀ w, CInv w → wf_hist w ops → CInv (prun w ops).
+Proof.
+  unfold prun. induction ops as [|o ops IH]; intros w HC Hwf; cbn [fold_left]; [done|].
+  destruct Hwf as [Ho Hr]. apply IH; [by apply (cinv_step w (P1 o))|done].
+Qed.
+
+(** * a history that satisfies the hypotheses of the history theorems (non-vacuity): Pool p1 of size 1 is visible, the
+      first pod of the deployment is filtered (filter allocates: 1 IP), the second is refused, the first is bound (no
+      new IP), the pool is grown to 3 through the API (2 IPs pre-allocated), the Pool object of size 3 becomes
+      visible, the second pod is filtered (takes a pre-allocated IP: still 3) and bound *)
+Definition c07_ex_ops : list pop2 := [
+  P1 (PIpam (OConfigure [k2_conf1; k2_conf2] false []));
+  P1 (PEnv (EDpSet (L "ns1", L "job") (Some 2)));
+  P1 (PEnv (EPoolSet (L "p1") (Some 1)));
+  P1 (PEnv (EPodPut k2_p1)); P1 (PEnv (EInformer (pk k2_p1)));
+  P1 (PFilter (pk k2_p1) [L "node1"] {| o_first := None; o_choice := Some 174325762; o_order := [] |} no_faults);
+  P1 (PEnv (EPodPut k2_p2)); P1 (PEnv (EInformer (pk k2_p2)));
+  P1 (PFilter (pk k2_p2) [L "node1"] no_oracle no_faults);
+  P1 (PBind (L "ns1") (L "job-7f9c6d-k1") (L "k1") (L "node1") {| o_first := Some 174325762; o_choice := None; o_order := [] |} no_faults);
+  PApiPool (L "p1") 3 true [174325763; 174325764] None;
+  P1 (PEnv (EPoolSet (L "p1") (Some 3)));
+  P1 (PFilter (pk k2_p2) [L "node1"] {| o_first := None; o_choice := Some 174325764; o_order := [] |} no_faults);
+  P1 (PBind (L "ns1") (L "job-7f9c6d-k2") (L "k2") (L "node1") {| o_first := Some 174325764; o_choice := None; o_order := [] |} no_faults);
+  P1 (PSyncPod (pk k2_p1) no_faults) ].
+
+(** result and pool count after each step *)
+Fixpoint pouts2 (P : str) (w : world) (ops : list pop2) : list (pout2 * nat) :=
+  match ops with [] => [] | o :: r => ((pstep2 w o).2, pool_count (w_ipam (pstep2 w o).1) P) :: pouts2 P (pstep2 w o).1 r end.
+
+Lemma c07_ex_results : pouts2 (L "p1") (world0 false k2_nodes) c07_ex_ops =
+  [(R1 ROk, 0%nat); (R1 ROk, 0%nat); (R1 ROk, 0%nat); (R1 ROk, 0%nat); (R1 ROk, 0%nat); (R1 (RNodes [L "node1"]), 1%nat); (R1 ROk, 1%nat); (R1 ROk, 1%nat);
+   (R1 RErr, 1%nat); (R1 (RIps [174325762]), 1%nat); (RPool PoolOk, 3%nat); (R1 ROk, 3%nat); (R1 (RNodes [L "node1"]), 3%nat);
+   (R1 (RIps [174325764]), 3%nat); (R1 ROk, 3%nat)].
+Proof. vm_compute. reflexivity. Qed.
+
+(** boolean checks of the two extra hypotheses, for concrete histories *)
+Definition is_nil {A} (l : list A) : bool := match l with [] => true | _ => false end.
+
+Lemma bind_no_alloc_check w ns name :
+  match w_lister w !! (ns, name) with
+  | Some l => bool_decide (pd_ranges l = []) && negb (is_nil (by_key (w_ipam w) (pod_key l)))
+  | None => true
+  end = true → bind_no_alloc w ns name.
+Proof.
+  intros H l El _. rewrite El in H. apply andb_prop in H as [H1 H2]. apply bool_decide_eq_true in H1. split; [done|].
+  destruct (by_key (w_ipam w) (pod_key l)) as [|[x e] rest] eqn:E; [discriminate H2|].
+  exists x, e. apply by_key_spec. rewrite E. by left.
+Qed.
+
+Lemma sync_no_free_check w key :
+  match w_lister w !! key with
+  | Some l => forallb (λ x, negb (bool_decide (x ∈ i_unalloc (w_ipam w)))) (pd_ips l)
+  | None => true
+  end = true →
+  ∀ l, w_lister w !! key = Some l → pd_pool l ≠ [] → ∀ x, x ∈ pd_ips l → x ∉ i_unalloc (w_ipam w).
+Proof.
+  intros H l El _ x Hx. rewrite El in H. rewrite forallb_forall in H. apply elem_of_list_In in Hx.
+  specialize (H x Hx). apply negb_true_iff, bool_decide_eq_false in H. done.
+Qed.
+
+Lemma c07_ex_wf : wf_c07_hist (world0 false k2_nodes) c07_ex_ops.
+Proof.
+  unfold c07_ex_ops. cbn [wf_c07_hist wf_c07 wf_op wf_env]. split_and!; try exact I.
+  - reflexivity.
+  - intros ps _ k p x Hk. cbn [world0 w_pods] in Hk. by rewrite lookup_empty in Hk.
+  - apply mk_pod_wf; reflexivity.
+  - reflexivity.
+  - reflexivity.
+  - match goal with |- uid_fresh ?w ?u => apply (@bool_decide_unpack _ (uid_fresh_dec w u)) end; vm_compute; exact I.
+  - apply mk_pod_wf; reflexivity.
+  - reflexivity.
+  - reflexivity.
+  - match goal with |- uid_fresh ?w ?u => apply (@bool_decide_unpack _ (uid_fresh_dec w u)) end; vm_compute; exact I.
+  - discriminate.
+  - apply bind_no_alloc_check. vm_compute. reflexivity.
+  - vm_compute. intuition discriminate.
+  - discriminate.
+  - apply bind_no_alloc_check. vm_compute. reflexivity.
+  - apply sync_no_free_check. vm_compute. reflexivity.
+Qed.
+
+(** * statements in the form Props/C07.v quotes *)
+Lemma pool_key_other_noprefix P name : P ≠ [] → free Keys.us P → free Keys.us name → name ≠ P →
+  has_prefix (pool_key P) (pool_key name) = false.
+Proof.
+  intros HP FP Fn Hne. destruct name as [|c name']; [by apply pool_key_nil_noprefix|].
+  destruct (has_prefix (pool_key P) (pool_key (c :: name'))) eqn:E; [|done].
+  apply pool_key_pool_inv in E; done.
+Qed.
+
+Lemma pool_cap_prealloc_other_l w name size picks nfail w' r Q :
+  WInv w → Q ≠ [] → free Keys.us Q → free Keys.us name → name ≠ Q →
+  prealloc_section w name size picks nfail = (w', r) → pool_count (w_ipam w') Q = pool_count (w_ipam w) Q.
+Proof.
+  intros HW HQ FQ Fn Hne H. destruct (prealloc_section_spec _ _ _ _ _ _ _ HW H) as (_ & _ & _ & _ & Hoth & _).
+  rewrite !pool_count_cnt. apply Hoth. by apply pool_key_other_noprefix.
+Qed.
+
+Lemma pool_cap_bind_partial_l w ns name uid node o fl l w' r P :
+  w_lister w !! (ns, name) = Some l → pd_ranges l = [] →
+  (∃ x e, i_alloc (w_ipam w) !! x = Some e ∧ e_key e = pod_key l) →
+  bind_section true true w ns name uid node o fl = (w', r) →
+  pool_count (w_ipam w') P = pool_count (w_ipam w) P.
+Proof. intros El Hr Hh H. rewrite !pool_count_cnt. apply keys_eq_cnt. by eapply bind_holding_keys_eq. Qed.
+
+Lemma pool_cap_refuted_late_pool_l : ∃ nodes ops P size, let w := prun (world0 false nodes) ops in
+  wf_hist (world0 false nodes) ops ∧ w_poolobjs w !! P = Some size ∧ (size < N.of_nat (pool_count (w_ipam w) P))%N.
+Proof.
+  exists k2_nodes, k2_ops, (L "p1"), 1. cbv zeta. destruct k2_final as [H1 H2]. split_and!; [apply k2_wf|exact H1|].
+  rewrite H2. done.
+Qed.
+
+(** the filter bound at any point of any well-formed history (bind may allocate in such a history) *)
+Lemma pool_cap_filter_reachable_l provider nodes ops key p nodes' o fl w' r size :
+  wf_hist2 (world0 provider nodes) ops → let w := prun2 (world0 provider nodes) ops in
+  w_pods w !! key = Some p → pd_kind p = KDp → pd_pool p ≠ [] → w_poolobjs w !! pd_pool p = Some size →
+  filter_section w p nodes' o fl = (w', r) →
+  (N.of_nat (pool_count (w_ipam w') (pd_pool p)) <= N.max (N.of_nat (pool_count (w_ipam w) (pd_pool p))) size)%N.
+Proof.
+  intros Hwf w Hp Hk Hpool Hsz H. destruct (cinv_run2 ops _ (cinv_init provider nodes) Hwf) as [HW Hns].
+  destruct (wi_pods _ HW key p Hp) as [_ W]. by eapply pool_cap_filter_l.
+Qed.
+
+Print Assumptions pool_cap_filter_l.
+Print Assumptions filter_cnt_bound.
+Print Assumptions prealloc_section_spec.
+Print Assumptions pool_count_release_steps_l.
+Print Assumptions bind_c07_cnt.
+Print Assumptions pool_cap_history_l.
+Print Assumptions pool_cap_invariant_l.
+Print Assumptions cinv_run2.
+Print Assumptions c07_ex_wf.
+Print Assumptions pool_cap_refuted_late_pool_l.
